@@ -50,6 +50,9 @@ PROPS = {
     },
     "C02": {
         "level": "proof", "drivers": ["drv_pipeline"],
+        # the aggregator never constructs a DanglingDoccomment (the construction is commented out in
+        # enterBracket_doccomment), so no pipeline execution can witness its renderer; its obligations are discharged
+        "no_witness": ["cminx.documentation_types:DanglingDoccomment.process"],
         "trusted_base": [T_PY, T_SMT, T_ANTLR, T_STRLIB],
         "assumptions": _AGG_ASSUME + [
             "argument text of a parenthesised group is ANTLR's getText() (token texts concatenated: inner white space is "
